@@ -212,6 +212,10 @@ declarations:
     - decl: int other()
     - decl: void put(int a)
     - decl: void put(double a)
+    - block: True
+      declarations:
+      - decl: Cls(int size)
+      - decl: ~Cls()
   - decl: int nsfunc(int n)
 - decl: int libfunc(int n)
 - block: True
@@ -262,6 +266,9 @@ def leaves(d):
            (cls["declarations"][2], ["lib", "ns", "cls"]),
            (cls["declarations"][3], ["lib", "ns", "cls"]),
            (cls["declarations"][4], ["lib", "ns", "cls"]),
+           # a second block of the class holds a constructor and the destructor (a block is no level of its own here)
+           (cls["declarations"][5]["declarations"][0], ["lib", "ns", "cls"]),
+           (cls["declarations"][5]["declarations"][1], ["lib", "ns", "cls"]),
            (ns["declarations"][1], ["lib", "ns"]),
            (d["declarations"][2], ["lib"]),
            (d["declarations"][3]["declarations"][0], ["lib"])]
@@ -419,6 +426,11 @@ ATTR_SHAPES = [
          cand_fn=[]),
     dict(name="getName", bare="const std::string & getName(){f}", args=[],
          cand_args=[], cand_fn=[("len", "30"), ("deref", "allocatable")]),
+    # the same attributes on a function with further fields beside the declaration (Fortran generic variants)
+    dict(name="sumg", bare="double sumg(const double *v{a0}, int n{a1}){f}", args=["v", "n"],
+         cand_args=[[("rank", "1")], [("implied", "size(v)")]],
+         cand_fn=[],
+         extra={"fortran_generic": [{"decl": "(const float *v +rank(1))"}, {"decl": "(const double *v +rank(1))"}]}),
 ]
 
 
@@ -478,8 +490,9 @@ def run_attr(sh, chosen_args, sel_fn):
     inline = sh["bare"].format(**fill)
     bare = sh["bare"].format(**{k: "" for k in fill})
     base = {"library": "att", "cxx_header": "att.hpp", "options": {"wrap_python": True, "wrap_lua": False}}
-    dA = dict(base, declarations=[{"decl": inline}])
-    node = {"decl": bare}
+    extra = sh.get("extra", {})
+    dA = dict(base, declarations=[dict(copy.deepcopy(extra), decl=inline)])
+    node = dict(copy.deepcopy(extra), decl=bare)
     attrs = {sh["args"][i]: {k: v for k, v in s} for i, s in enumerate(chosen_args) if s}
     if attrs:
         node["attrs"] = attrs
